@@ -1,5 +1,6 @@
 import Sylvia.Lemmas.Reply
 import Sylvia.Lemmas.Serde
+import Sylvia.Lemmas.UpperSnake
 /-!
 # C08 — sub-message builders and reply dispatch agree on id, trigger and payload
 -/
@@ -93,5 +94,15 @@ theorem payload_roundtrip_many : ∀ (ts : List VTy) (js cs : List Json),
         simp [List.zip_cons_cons, List.mapM_cons, decodeVal_idem false false t j c hj, ih]
   | [], _ :: _, _, _, hl => by simp at hl
   | _ :: _, [], _, _, hl => by simp at hl
+
+/-- **the id constant's name determines the handler name**, for handler names of the property's shape (lower-case
+words, each optionally ending in digits, joined by single underscores): two handlers never share an id by accident -/
+theorem id_string_injective_on_shape (w w' : Casing.Word) (ws ws' : List Casing.Word)
+    (h : Casing.ccUpperSnake (Casing.render (w :: ws)) = Casing.ccUpperSnake (Casing.render (w' :: ws'))) :
+    Casing.render (w :: ws) = Casing.render (w' :: ws') := by
+  rw [Casing.upperSnake_injective_on_shape w w' ws ws' h]
+
+/-- outside that shape the id string is *not* injective: `foo1` and `foo_1` share `FOO_1` (recorded limitation) -/
+example : Casing.ccUpperSnake [.lower 5, .lower 14, .lower 14, .digit 1] = Casing.ccUpperSnake [.lower 5, .lower 14, .lower 14, .us, .digit 1] := by decide
 
 end C08
